@@ -93,7 +93,10 @@ pub fn draw_routes(sim: &Sim, n_dst: usize, max_routes: usize) -> Vec<Route> {
         }
         hops.push(Hop { asn: 0x200 + dst as u64, ing: 1 + sim.idx(3) as u16, eg: 0 });
         let r = Route { dst, hops };
-        if !routes.iter().any(|x| x.dst == r.dst && x.hops == r.hops) {
+        // the SDK identifies a path by its interface sequence (the data-plane fingerprint ignores AS numbers):
+        // two routes of the universe never share one
+        let ifs = |x: &Route| -> Vec<(u16, u16)> { x.hops.iter().map(|h| (h.ing, h.eg)).collect() };
+        if !routes.iter().any(|x| x.dst == r.dst && ifs(x) == ifs(&r)) {
             routes.push(r);
         }
     }
@@ -284,10 +287,10 @@ pub fn draw_policies(sim: &Sim, routes: &[Route]) -> PolicySet {
             // ACL: deny (or allow only) paths through a hop
             let (a, i, e) = pick_hop(sim);
             let s = match sim.idx(4) {
-                0 => format!("- 1-{a:x} +"),
-                1 => format!("- 1-{a:x}#{} +", if e != 0 { e } else { i }),
-                2 => format!("+ 1-{a:x} -"),
-                _ => format!("- 1-{a:x}#{i},{e} +"),
+                0 => format!("- 1-{a} +"),
+                1 => format!("- 1-{a}#{} +", if e != 0 { e } else { i }),
+                2 => format!("+ 1-{a} -"),
+                _ => format!("- 1-{a}#{i},{e} +"),
             };
             match AclPolicy::parse(&s) {
                 Ok(p) => {
@@ -301,9 +304,9 @@ pub fn draw_policies(sim: &Sim, routes: &[Route]) -> PolicySet {
         4 => {
             let (a, _, _) = pick_hop(sim);
             let s = match sim.idx(3) {
-                0 => format!("0* 1-{a:x} 0*"),
+                0 => format!("0* 1-{a} 0*"),
                 1 => "0 0 0?".to_string(),
-                _ => format!("0+ (1-{a:x} | 1-{:x}) 0*", a + 1),
+                _ => format!("0+ (1-{a} | 1-{}) 0*", a + 1),
             };
             match HopPatternPolicy::parse(&s) {
                 Ok(p) => {
@@ -317,7 +320,7 @@ pub fn draw_policies(sim: &Sim, routes: &[Route]) -> PolicySet {
         _ => {
             // combination: ACL and hash
             let (a, _, _) = pick_hop(sim);
-            let s = format!("- 1-{a:x} +");
+            let s = format!("- 1-{a} +");
             let salt = sim.draw(1 << 16);
             if let Ok(p) = AclPolicy::parse(&s) {
                 ps.policies.push(Arc::new(p));
